@@ -18,8 +18,9 @@ func init() {
 		Explanation: "Structural necessary conditions of C17 (DESIGN.md §3/C17) decided on the serial packet encoder and decoder of package client, which are found by effect " +
 			"(the function that checksums a byte buffer it then extends with the checksum; the function that compares a checksum of a sub-slice of its []byte parameter with a 16-bit word read from that parameter): " +
 			"R1 the byte layout written by the encoder (sequence byte, zero-padded fixed subject, payload, checksum over everything before it) equals the windows read by the decoder, " +
-			"with the same checksum function and byte order, and the encoder refuses a subject longer than its field; " +
+			"with the same checksum function and byte order, and the encoder refuses a subject longer than the window of the field it is copied into (a header prepared in a fixed-size object is read store by store; bytes no store covers are padding); " +
 			"R2 acceptance table over the atoms subject==\"log\" and stored==computed checksum, on every path: the payload is returned with a nil error iff one of them holds, every other exit returns an error; " +
+			"the test that exempts a frame from the checksum is evaluated for probe frames (subjects that share a prefix, a suffix or the letters of \"log\", or differ in one byte): every probe that is accepted without a checksum comparison is delivered as \"log\"; " +
 			"R3 every index/slice of the packet in the decoder is implied by the length guards on every path (interval analysis, proof or concrete counterexample); " +
 			"R4 every field of data.Point is carried by exactly one field of the serial point message and read back from it with inverse transforms. " +
 			"Not decided: the error-detection power of CRC-16/CCITT, float32 rounding of values, protobuf library behaviour.",
@@ -259,7 +260,7 @@ func c17FindEncoders(c *kit.Ctx, rel string, sumFn types.Object) []*c17Encoder {
 
 func runC17(c *kit.Ctx) {
 	r1 := c.Rule("R1", "encoder and decoder agree on the packet layout", 10)
-	r2 := c.Rule("R2", "checksum acceptance table", 4)
+	r2 := c.Rule("R2", "checksum acceptance table", 5)
 	r3 := c.Rule("R3", "decoder indices are implied by length guards", 5)
 	r4 := c.Rule("R4", "serial point codec field completeness", 5)
 
@@ -275,13 +276,13 @@ func runC17(c *kit.Ctx) {
 	enc := encs[0]
 	c.Analysed(dec.f, enc.f)
 
-	dm := c17AnalyseDecoder(c, dec)
 	var em *c17EncModel
 	if enc.slice {
 		em = c17AnalyseSliceEncoder(c, enc)
 	} else {
 		em = c17AnalyseEncoder(c, enc)
 	}
+	dm := c17AnalyseDecoder(c, dec, em)
 
 	c17Layout(c, r1, enc, em, dec, dm)
 	c17Storage(c, r1, enc, em)
@@ -356,6 +357,9 @@ type c17DecModel struct {
 	payVar     types.Object
 	paySlice   *ast.SliceExpr
 	problems   []string
+	// subject tests evaluated for the probe frames (nil: the encoder's subject
+	// field is not known)
+	exempt *c17Exempt
 }
 
 // c17DerivedSlice finds the single slice-of-d expression inside e.
@@ -375,10 +379,60 @@ func c17DerivedSlice(info *types.Info, e ast.Expr, d types.Object) *ast.SliceExp
 	return found
 }
 
-func c17AnalyseDecoder(c *kit.Ctx, dec *c17Decoder) *c17DecModel {
+// c17DerivedSliceDeep is c17DerivedSlice that also looks through locals
+// whose single definition is a slice of d (`hdr := d[1:17]; … hdr …`).
+func c17DerivedSliceDeep(f *kit.Func, e ast.Expr, d types.Object) *ast.SliceExpr {
+	info := f.Info()
+	if se := c17DerivedSlice(info, e, d); se != nil {
+		return se
+	}
+	var found *ast.SliceExpr
+	n := 0
+	ast.Inspect(e, func(x ast.Node) bool {
+		switch y := x.(type) {
+		case *ast.SliceExpr:
+			if kit.ObjOf(info, y.X) == d {
+				n++
+			}
+		case *ast.Ident:
+			if o := kit.ObjOf(info, y); o != nil && o != d {
+				if def := c12SingleDef(f, o); def != nil {
+					if se := c17SliceOf(info, def, d); se != nil {
+						found = se
+						n++
+					}
+				}
+			}
+		}
+		return true
+	})
+	if n != 1 {
+		return nil
+	}
+	return found
+}
+
+// c17IsSliceOrAlias: e is the slice expression se itself or a local whose
+// single definition it is.
+func c17IsSliceOrAlias(f *kit.Func, e ast.Expr, se *ast.SliceExpr) bool {
+	e = ast.Unparen(e)
+	if e == ast.Expr(se) {
+		return true
+	}
+	if id, ok := e.(*ast.Ident); ok {
+		if o := kit.ObjOf(f.Info(), id); o != nil {
+			if def := c12SingleDef(f, o); def != nil && ast.Unparen(def) == ast.Expr(se) {
+				return true
+			}
+		}
+	}
+	return false
+}
+
+func c17AnalyseDecoder(c *kit.Ctx, dec *c17Decoder, em *c17EncModel) *c17DecModel {
 	f := dec.f
 	info := f.Info()
-	dm := &c17DecModel{}
+	dm := &c17DecModel{exempt: c17NewExempt(dec, em)}
 	// variables holding the stored and the computed checksum
 	holder := func(call *ast.CallExpr) types.Object {
 		if as, ok := c.P.Parent(f.File, call).(*ast.AssignStmt); ok && len(as.Lhs) == 1 && len(as.Rhs) == 1 {
@@ -559,8 +613,8 @@ func c17AnalyseDecoder(c *kit.Ctx, dec *c17Decoder) *c17DecModel {
 	}
 	lf := &kit.LenFlow{F: f, X: dec.d}
 	lf.Visit = func(n ast.Node, s kit.S) { noteCalls(n, s, lf) }
-	lf.Leaf = func(e ast.Expr, s kit.S) (t, fl []kit.S, handled bool) {
-		noteCalls(e, s, lf)
+	// atom interprets the leaves the table knows by shape
+	atom := func(e ast.Expr, s kit.S) (t, fl []kit.S, handled bool) {
 		if dec.viaHelper() {
 			if call, ok := ast.Unparen(e).(*ast.CallExpr); ok && f.CalleeFunc(call) == dec.vf && len(call.Args) == 1 {
 				if id, ok := ast.Unparen(call.Args[0]).(*ast.Ident); ok && kit.ObjOf(info, id) == dec.d {
@@ -585,6 +639,38 @@ func c17AnalyseDecoder(c *kit.Ctx, dec *c17Decoder) *c17DecModel {
 					return t, fl, true
 				}
 			}
+		}
+		if c17BytesEqualLog(f, e, dec.d) {
+			t, fl = setAtom(s, "log", true)
+			return t, fl, true
+		}
+		return nil, nil, false
+	}
+	lf.Leaf = func(e ast.Expr, s kit.S) (t, fl []kit.S, handled bool) {
+		noteCalls(e, s, lf)
+		t, fl, handled = atom(e, s)
+		// a test of the subject field: its value for the probe frames travels
+		// with the path (c17_exempt.go), whether or not the table knows its shape
+		if wl := dm.exempt.leaf(e); wl != nil {
+			k := fmt.Sprintf("w:%d", wl.id)
+			if !handled {
+				s = s.Set("q", "1")
+				t, fl, handled = []kit.S{s}, []kit.S{s}, true
+			}
+			mark := func(in []kit.S, v string) (out []kit.S) {
+				for _, x := range in {
+					if !x.Has(k) {
+						out = append(out, x.Set(k, v))
+					} else if x.Get(k) == v {
+						out = append(out, x)
+					}
+				}
+				return out
+			}
+			return mark(t, "T"), mark(fl, "F"), true
+		}
+		if handled {
+			return t, fl, true
 		}
 		if relevant(e) {
 			q := s.Set("q", "1")
@@ -728,6 +814,13 @@ func c17AnalyseEncoder(c *kit.Ctx, enc *c17Encoder) *c17EncModel {
 		})
 		return hit
 	}
+	var byteParams []types.Object
+	for _, p := range f.Params() {
+		if b, ok := p.Type().Underlying().(*types.Basic); ok && b.Kind() == types.Uint8 {
+			byteParams = append(byteParams, p)
+		}
+	}
+	tl := &c17Tiler{f: f, em: em, buf: enc.buf, byteParams: byteParams, strParams: strParams}
 	calls := f.AllCalls(false)
 	sort.Slice(calls, func(i, j int) bool { return calls[i].End() < calls[j].End() })
 	for _, call := range calls {
@@ -799,6 +892,19 @@ func c17AnalyseEncoder(c *kit.Ctx, enc *c17Encoder) *c17EncModel {
 						}
 						return true
 					})
+				}
+			}
+			// a header prepared in a fixed-size object and written as a whole:
+			// `var hdr [17]byte; hdr[0] = seq; copy(hdr[1:], subject); buf.Write(hdr[:])`
+			if seg.role == "" {
+				if o, n, ok := tl.fixedObject(call.Args[0]); ok {
+					if ts := tl.tiles(o, n, "the prepared field "+o.Name(), call.Pos()); len(ts) > 0 {
+						if !topLevel(call) {
+							em.problems = append(em.problems, fmt.Sprintf("write %s is conditional or repeated", f.Str(call)))
+						}
+						em.segs = append(em.segs, ts...)
+						continue
+					}
 				}
 			}
 		case q == "encoding/binary.Write" && len(call.Args) == 3 && onBuf(call.Args[0]):
@@ -1073,6 +1179,11 @@ func c17Layout(c *kit.Ctx, r *kit.Rule, enc *c17Encoder, em *c17EncModel, dec *c
 		return fmt.Sprintf("L-%d", k)
 	}
 
+	// the checksummed path: the subject test failed, or (when the test is not
+	// one the table knows by shape) the checksums were found equal
+	checksummed := func(s kit.S) bool {
+		return s.Get("a:log") == "F" || (s.Get("a:log") == "" && s.Get("a:crc") == "T")
+	}
 	oSeq := r.Ob(df, nil, "sequence byte window", fmt.Sprintf("the decoder returns byte %d of the packet as sequence number", seqOff))
 	oSub := r.Ob(df, nil, "subject window", fmt.Sprintf("the decoder reads the subject from bytes [%d:%d) and strips only the zero padding", subOff, subOff+sSub.size))
 	oPay := r.Ob(df, nil, "payload window", fmt.Sprintf("on the checksummed path the decoder returns bytes [%d:len-%d) as payload", payOff, crcSize))
@@ -1125,7 +1236,7 @@ func c17Layout(c *kit.Ctx, r *kit.Rule, enc *c17Encoder, em *c17EncModel, dec *c
 			vSub = append(vSub, verdict{"undecided", "no string result"})
 		} else {
 			def := resolve(subE)
-			se := c17DerivedSlice(info, def, dec.d)
+			se := c17DerivedSliceDeep(df, def, dec.d)
 			if se == nil && dm.subjHelper != nil {
 				// subject := h(d): look inside the helper (its parameter is the whole packet)
 				if hc, isCall := def.(*ast.CallExpr); isCall && df.CalleeFunc(hc) == dm.subjHelper {
@@ -1145,9 +1256,9 @@ func c17Layout(c *kit.Ctx, r *kit.Rule, enc *c17Encoder, em *c17EncModel, dec *c
 				if cv, ok := def.(*ast.CallExpr); ok && len(cv.Args) == 1 {
 					if tv, ok := info.Types[cv.Fun]; ok && tv.IsType() {
 						in := ast.Unparen(cv.Args[0])
-						if in == ast.Expr(se) {
+						if c17IsSliceOrAlias(df, in, se) {
 							wrapOK = true
-						} else if tc, ok := in.(*ast.CallExpr); ok && kit.CallIs(info, tc, "bytes.Trim", "bytes.TrimRight") && len(tc.Args) == 2 && ast.Unparen(tc.Args[0]) == ast.Expr(se) {
+						} else if tc, ok := in.(*ast.CallExpr); ok && kit.CallIs(info, tc, "bytes.Trim", "bytes.TrimRight") && len(tc.Args) == 2 && c17IsSliceOrAlias(df, tc.Args[0], se) {
 							if cut, ok := kit.ConstString(info, tc.Args[1]); ok && cut == "\x00" {
 								wrapOK = true
 							}
@@ -1181,7 +1292,7 @@ func c17Layout(c *kit.Ctx, r *kit.Rule, enc *c17Encoder, em *c17EncModel, dec *c
 					continue
 				}
 				winAny = true
-				if ex.State.Get("a:log") == "F" {
+				if checksummed(ex.State) {
 					winLo[a], winHi[b] = true, true
 				}
 			}
@@ -1208,7 +1319,7 @@ func c17Layout(c *kit.Ctx, r *kit.Rule, enc *c17Encoder, em *c17EncModel, dec *c
 				vPay = append(vPay, verdict{"ok", fmt.Sprintf("%s = [%s:%s) when the subject is not log", df.Str(payE), one(lo), one(hi))})
 			}
 		} else if pse, ok := resolve(payE).(*ast.SliceExpr); payE != nil && ok && kit.ObjOf(info, pse.X) == dec.d {
-			lo, hi := boundsOf(pse, func(s kit.S) bool { return s.Get("a:log") == "F" })
+			lo, hi := boundsOf(pse, checksummed)
 			wantLo, wantHi := fmt.Sprint(payOff), lminus(crcSize)
 			switch {
 			case len(lo) == 0:
@@ -1323,9 +1434,13 @@ func c17Acceptance(c *kit.Ctx, r *kit.Rule, dec *c17Decoder, dm *c17DecModel, em
 	oCrc := r.Ob(f, dec.computed, "accept: matching checksum", "with stored == computed checksum the payload is returned with a nil error")
 	oRej := r.Ob(f, dec.computed, "reject: checksum mismatch", "no exit returns a nil error unless subject == \"log\" or stored == computed checksum was established on its path")
 	oVal := r.Ob(f, nil, "no rejection after acceptance", "no exit returns an error once subject == \"log\" or stored == computed checksum holds")
+	oEx := r.Ob(f, nil, "exemption is the log subject only", "a frame that is returned without a checksum comparison is delivered with the subject \"log\": the test that exempts it compares the whole subject field for equality")
 	c.AddValuations(4)
+	if dm.exempt != nil {
+		c.AddValuations(len(dm.exempt.frames))
+	}
 	if lf.Problem != "" || lf.Result == nil || lf.Result.Overflow {
-		for _, o := range []*kit.Ob{oLog, oCrc, oRej, oVal} {
+		for _, o := range []*kit.Ob{oLog, oCrc, oRej, oVal, oEx} {
 			o.Undecided("decoder flow not available: %s", lf.Problem)
 		}
 		return
@@ -1359,6 +1474,21 @@ func c17Acceptance(c *kit.Ctx, r *kit.Rule, dec *c17Decoder, dm *c17DecModel, em
 	// not interpret; sawLog/sawCrc: the atom was recognised somewhere
 	anyQ, sawLog, sawCrc := false, false, false
 	var qRej, qVal []string
+	// frames of another subject that are accepted without a checksum (c17_exempt.go)
+	var wideRej, exUnknown []string
+	exJudged, exShape := 0, 0
+	sig := f.Signature()
+	subjResult := func(ret *ast.ReturnStmt) ast.Expr {
+		if ret == nil || sig == nil || sig.Results().Len() != len(ret.Results) {
+			return nil
+		}
+		for i := 0; i < sig.Results().Len(); i++ {
+			if b, ok := sig.Results().At(i).Type().Underlying().(*types.Basic); ok && b.Kind() == types.String {
+				return ret.Results[i]
+			}
+		}
+		return nil
+	}
 	for _, e := range lf.Result.Exits {
 		lg, cr := e.State.Get("a:log"), e.State.Get("a:crc")
 		if lg != "" {
@@ -1376,6 +1506,22 @@ func c17Acceptance(c *kit.Ctx, r *kit.Rule, dec *c17Decoder, dm *c17DecModel, em
 		}
 		switch classify(e) {
 		case "accept":
+			if cr == "" {
+				// accepted without a checksum comparison: which frames come here?
+				w, judged := dm.exempt.wide(e.State, subjResult(e.Return))
+				switch {
+				case w != nil:
+					wideRej = append(wideRej, fmt.Sprintf("%s returns a frame whose subject field holds %q with a nil error and without a checksum comparison, delivered as subject %q (%s). "+
+						"Only the subject \"log\" is exempt from the checksum by design: with this test a checksummed frame whose subject is damaged into one that passes it (p.g… and log… differ by one 13-bit burst) is delivered with different content instead of being rejected",
+						at, w.subject, w.delivered, strings.Join(w.tests, ", ")))
+				case judged:
+					exJudged++
+				case lg == "T":
+					exShape++
+				default:
+					exUnknown = append(exUnknown, at)
+				}
+			}
 			switch {
 			case lg == "T":
 				accLog = true
@@ -1424,7 +1570,7 @@ func c17Acceptance(c *kit.Ctx, r *kit.Rule, dec *c17Decoder, dm *c17DecModel, em
 		}
 	}
 	if len(unknown) > 0 {
-		for _, o := range []*kit.Ob{oLog, oCrc, oRej, oVal} {
+		for _, o := range []*kit.Ob{oLog, oCrc, oRej, oVal, oEx} {
 			o.Undecided("exit with an error result of unknown nil-ness: %s", unknown[0])
 		}
 		return
@@ -1445,6 +1591,22 @@ func c17Acceptance(c *kit.Ctx, r *kit.Rule, dec *c17Decoder, dm *c17DecModel, em
 		oCrc.Undecided("no accepting exit under a matching checksum was found, but %s", notFound)
 	default:
 		oCrc.Violation("no exit returns the payload when the stored checksum equals the computed one: every valid packet is rejected")
+	}
+	nProbes := 0
+	if dm.exempt != nil {
+		nProbes = len(dm.exempt.frames)
+	}
+	switch {
+	case len(wideRej) > 0:
+		oEx.Violation("%s", wideRej[0])
+	case len(exUnknown) > 0:
+		oEx.Undecided("%s accepts without a checksum comparison on a path with no test of the subject that can be evaluated", exUnknown[0])
+	case exJudged > 0:
+		oEx.OK("of %d probe frames (subjects with the prefix, the suffix, the letters of \"log\", one byte off, …) only those delivered as \"log\" reach the %d exit(s) that accept without a checksum comparison", nProbes, exJudged+exShape)
+	case exShape > 0:
+		oEx.OK("the exits that accept without a checksum comparison follow subject == \"log\" (by shape; the test could not be evaluated for probe frames)")
+	default:
+		oEx.OK("no exit accepts without a checksum comparison")
 	}
 	switch {
 	case len(badRej) > 0 && sawLog && sawCrc:
@@ -1670,6 +1832,10 @@ func c17SubjectGuard(encoder *kit.Func, em *c17EncModel) {
 			case max < 0 || max > em.subjField:
 				em.guardOK = false
 				em.guardMsg = fmt.Sprintf("a subject of %d bytes reaches `%s` in %s and is silently truncated to %d bytes (no dominating length refusal)", em.subjField+1, f.Str(cp), f.Name, em.subjField)
+				if max > em.subjField {
+					em.guardMsg = fmt.Sprintf("the length refusal admits subjects of up to %d bytes, but `%s` in %s copies into a window of %d bytes: a subject of %d bytes is silently truncated to its first %d bytes, gets a valid checksum and decodes as a different subject",
+						max, f.Str(cp), f.Name, em.subjField, max, em.subjField)
+				}
 				if s.Get("u") != "" {
 					em.guardMsg = "undecided: " + em.guardMsg
 				}
